@@ -480,6 +480,13 @@ class SSeq(SVal):
         cx.note_write(("seq", id(self)), self)
 
     def py_contains(self, cx, item):
+        # `x in list` compares with ==: for objects of a class with its own __eq__ (registered element equality) that is
+        # its contract, not identity
+        eqs = getattr(getattr(getattr(cx, "run", None), "interp", None), "registry", None)
+        eq = getattr(eqs, "elem_eq", {}).get(getattr(self.elt, "cls", None)) if eqs is not None else None
+        if eq is not None and isinstance(item, SRef):
+            i = z3.Int(fresh_name("m_i"))
+            return z3.Exists([i], z3.And(0 <= i, i < self.n, eq(cx, SRef(self.elt.cls, self.at_term(i)), item)))
         return self.contains_term(self.elt.unwrap(cx, item))
 
     def concat(self, cx, o):
